@@ -127,7 +127,7 @@ def run(ctx):
     # more would switch the type comparison off for schema-valid metadata (C14's rule set)
     from . import c14
 
-    c14.run(ctx.sub("DEP-C14"))
+    c14.run(ctx.sub("DEP-C14"), deps=False)
 
     entries_independent(ctx, "R3")
 
